@@ -208,13 +208,19 @@ class C06(Family):
                      # from the text of forced_response (control/timeresp.py) of the tree under check on every
                      # run and proved equal to the model; one small file per block
                      "CtrlVerif.Props.C06GenFoh", "CtrlVerif.Props.C06GenFree", "CtrlVerif.Props.C06GenCont",
-                     "CtrlVerif.Props.C06GenDisc", "CtrlVerif.Props.C06GenGrid", "CtrlVerif.Props.C06Gen"]
+                     "CtrlVerif.Props.C06GenDisc", "CtrlVerif.Props.C06GenGrid", "CtrlVerif.Props.C06Gen",
+                     # source-text tie of _check_convert_array (harness/core/py2lean_cca.py): the whole function,
+                     # proved equal to Model/CheckConvert; the validation primitive of the C20 model is an instance
+                     "CtrlVerif.Props.C06GenCCA", "CtrlVerif.Props.C06GenCCAUses"]
 
     def pre_build(self):
         import os
         from core import py2lean_tr, leanproj
         problems, self.gen_info = py2lean_tr.regenerate(os.environ.get("VERIF_REPO") or "/repo", leanproj.LEAN)
-        return problems
+        from core import py2lean_cca
+        p2, info2 = py2lean_cca.regenerate(os.environ.get("VERIF_REPO") or "/repo", leanproj.LEAN)
+        self.gen_info.update(info2)
+        return problems + p2
     externals = ["scipy.linalg.expm (its values are parameters of the continuous-time model; for "
                  "nilpotent A they are replaced by exact finite sums)",
                  "scipy.signal.dlsim / scipy.interpolate.make_interp_spline(k=1) (the model contains "
@@ -1126,4 +1132,5 @@ class C06(Family):
 
 
 from families.c06_tf import with_tf  # noqa: E402  (transfer-function stream, families/c06_tf.py)
-FAMILY = with_tf(C06)
+from families import select_streams as _sel      # direct stream for _check_convert_array
+FAMILY = _sel.extend(with_tf(C06), _sel.CCAStream())
